@@ -84,6 +84,118 @@ def late_member_part(out, wd, seed):
     out.extra["late_member"] = info
 
 
+def dead_owner_window_part(out, wd, seed):
+    """real processes: a node dies; for ~15 s the others still count it as a live owner. HTTP writes for ITS services sent through
+    the other nodes in that window cannot reach the owner: they must not be acknowledged unless they take effect on every live
+    node (a write handled by a node that is not the owner is exactly what single ownership excludes). The same writes before the
+    kill are the positive control. Cluster older than 47 s (the start-up snapshot exchanges would otherwise repair stray copies)."""
+    import os
+    import random
+    import threading
+    import time
+    import procrig
+    import c15
+    common.build(need_bin=True)
+    info = {"window_ops": {"acknowledged": 0, "refused": 0, "no_answer": 0}, "control_ops_acknowledged": 0}
+    rnd = random.Random(seed * 977 + 5)
+    env = {"RNACOS_NAMING_HEALTH_TIMEOUT_SECOND": "900", "RNACOS_NAMING_INSTANCE_TIMEOUT_SECOND": "1000"}
+    cl = procrig.Cluster(os.path.join(wd, "dow"), 3, env=env)
+    P = "/nacos/v1/ns/instance"
+    try:
+        cl.start()
+        t_formed = time.time()
+        n1, n2, n3 = cl.nodes
+        # services owned by node 3 while all are alive (hash % 3 == 2), half of them moving to node 1, half to node 2 afterwards
+        svcs = {2: [], 5: []}
+        i = 0
+        while min(len(v) for v in svcs.values()) < 4 and i < 100000:
+            i += 1
+            name = "c14dow-%d-%d" % (seed, i)
+            r6 = c15.service_hash("public", "DEFAULT_GROUP", name) % 6
+            if r6 in svcs and len(svcs[r6]) < 4:
+                svcs[r6].append(name)
+        names = svcs[2] + svcs[5]
+        time.sleep(max(0.0, 47.0 - (time.time() - t_formed)))
+
+        def listed(nd, svc):
+            r = nd.get(P + "/list", params={"serviceName": svc, "healthyOnly": "false"}, timeout=5)
+            j = r.json() if r.status == 200 else None
+            return None if j is None else sorted("%s:%s" % (h.get("ip"), h.get("port")) for h in j.get("hosts") or [])
+
+        # control: the same kind of writes while the owner is alive are acknowledged and visible everywhere
+        for k, svc in enumerate(names):
+            via = [n1, n2][k % 2]
+            r = via.post(P, form={"serviceName": svc, "ip": "10.14.3.%d" % k, "port": "80", "ephemeral": "true"}, timeout=8)
+            if r.status == 200:
+                info["control_ops_acknowledged"] += 1
+        time.sleep(2.5)
+        ctl_ok = all(listed(nd, svc) == ["10.14.3.%d:80" % k] for k, svc in enumerate(names) for nd in (n1, n2, n3))
+        info["control_visible_on_all_nodes"] = ctl_ok
+        if not ctl_ok or info["control_ops_acknowledged"] < len(names):
+            raise common.Inconclusive("control writes before the kill were not acknowledged / visible on all nodes")
+        n3.kill()
+        t_k = time.time()
+        time.sleep(rnd.uniform(1.0, 2.0))
+        acked = []
+        for k, svc in enumerate(names):
+            via = [n1, n2][(k + (seed % 2)) % 2] if k % 4 < 2 else [n2, n1][(k + (seed % 2)) % 2]
+            try:
+                if k % 2 == 0:
+                    op = "deregister"
+                    r = via.delete(P, params={"serviceName": svc, "ip": "10.14.3.%d" % k, "port": "80", "ephemeral": "true"}, timeout=8)
+                else:
+                    op = "register"
+                    r = via.post(P, form={"serviceName": svc, "ip": "10.14.4.%d" % k, "port": "80", "ephemeral": "true"}, timeout=8)
+            except OSError:
+                info["window_ops"]["no_answer"] += 1
+                continue
+            out.evaluations += 1
+            if r.status == 200 and r.text().strip() == "ok":
+                info["window_ops"]["acknowledged"] += 1
+                acked.append((k, svc, op, via.id, round(time.time() - t_k, 2)))
+            else:
+                info["window_ops"]["refused"] += 1
+            if time.time() - t_k > 11.0:
+                break
+        info["window_closed_s_after_kill"] = round(time.time() - t_k, 1)
+        # after the failure is detected (15 s + 3 s tick) and the survivors have synced
+        time.sleep(max(0.0, 30.0 - (time.time() - t_k)))
+        bad = None
+        deadline = time.time() + 20
+        while True:
+            bad = None
+            for k, svc, op, via_id, dt in acked:
+                want_present = op == "register"
+                addr = ("10.14.4.%d:80" if op == "register" else "10.14.3.%d:80") % k
+                views = {nd.id: listed(nd, svc) for nd in (n1, n2)}
+                if any(v is None for v in views.values()):
+                    bad = ("unreadable", svc, op, via_id, dt, views)
+                    continue
+                if any((addr in v) != want_present for v in views.values()):
+                    bad = ("not-effective", svc, op, via_id, dt, views)
+                    break
+            if bad is None or bad[0] == "not-effective" and time.time() > deadline or time.time() > deadline:
+                break
+            time.sleep(2.0)
+        info["acknowledged_in_window"] = [list(a) for a in acked][:8]
+        if bad and bad[0] == "not-effective":
+            _w, svc, op, via_id, dt, views = bad
+            out.violation("real-cluster/write-acknowledged-while-owner-unreachable/%s-not-reflected-on-every-live-node" % op,
+                          {"service": svc, "hash_mod_6": c15.service_hash("public", "DEFAULT_GROUP", svc) % 6, "owner_before": 3, "killed": 3, "operation": op, "sent_through_node": via_id,
+                           "seconds_after_kill": dt, "answer": "200 ok", "views_50s_after_kill": {str(a): b for a, b in views.items()}, "counts": info["window_ops"]})
+        elif bad:
+            info["inconclusive"] = "a survivor did not answer the final reads"
+        else:
+            out.shape("real-cluster/dead-owner-window/%s" % ("acknowledged-writes-effective" if acked else "writes-refused"))
+    except common.Inconclusive as e:
+        info["inconclusive"] = str(e)[:300]
+    except OSError as e:
+        info["inconclusive"] = repr(e)[:300]
+    finally:
+        cl.kill_all()
+    out.extra["dead_owner_window"] = info
+
+
 def run(tier, seed):
     common.build()
     wd = common.workdir("c14")
@@ -98,6 +210,9 @@ def run(tier, seed):
                     "evaluations = (view, key) observations judged; distinct_nontrivial = distinct (n, D) with D non-empty (id family 1..n) whose "
                     "views all reached the liveness pattern and were judged; thorough adds recoveries (smallest dead node revived, then "
                     "another live peer starved) and compares every recovered view with the fresh view of the same liveness pattern")
+        import threading
+        side = threading.Thread(target=dead_owner_window_part, args=(out, wd, seed), daemon=True)
+        side.start()
         try:
             reports = _once(tier, seed, wd)
         except common.Inconclusive as e:
@@ -129,6 +244,7 @@ def run(tier, seed):
             raise common.Inconclusive("; ".join(m["inconclusive"][:3]))
         if tier == "thorough":
             late_member_part(out, wd, seed)
+        side.join(240)
         return out.finish()
     finally:
         shutil.rmtree(wd, ignore_errors=True)
